@@ -41,12 +41,22 @@ def _population(roles: str, count: int, mtok: str):
     return G.build_population(roles, count, G.parse_members(mtok))
 
 
+@functools.lru_cache(maxsize=1)
+def _enum_class():
+    from openfisca_core.indexed_enums import Enum
+    return Enum("C10Enum", [(f"m{k}", f"m{k}") for k in range(8)])
+
+
 def _np(tok: str, dtype):
     kind, vals = G.parse_vals(tok)
+    if dtype == "enum" and kind == "i":
+        import numpy
+        from openfisca_core.indexed_enums import EnumArray
+        return EnumArray(numpy.array(vals, dtype=numpy.int16), _enum_class())
     return G.np_vals(kind, vals, dtype)
 
 
-def _call(target, H, tok, op, role, args, dtype, kw_role=True):
+def _call(target, H, tok, op, role, args, dtype):
     """call method `op` on `target` (a population or a projector)"""
     robj = G.role_object(tok, role)
     if op in ("sum", "any", "all", "min", "max"):
@@ -493,6 +503,14 @@ def cases_for(rng: random.Random, tok, count, members, full=False):
         out.append(mk("project", r, I(x)))
         out.append(mk("project", r, B(xb)))
         out.append(mk("hasrole", r))
+    # enum arrays (EnumArray is re-wrapped by value_nth_person / value_from_person)
+    ev = [rng.randint(0, 7) for _ in range(n)]
+    out.append(_case(tok, count, members, "nth", "-", rng.choice([0, 1]), rng.randint(0, 7), I(ev), tags=st + ("enum-array",), dtype="enum"))
+    out.append(_case(tok, count, members, "first", "-", I(ev), tags=st + ("enum-array",), dtype="enum"))
+    for r in uniq[:1]:
+        out.append(_case(tok, count, members, "from", r, rng.randint(0, 7), I(ev), tags=st + ("enum-array",), dtype="enum"))
+    out.append(_case(tok, count, members, "project", rng.choice(["-"] + ra), I([rng.randint(0, 7) for _ in range(count)]),
+                     tags=st + ("enum-array",), dtype="enum"))
     # ranks: distinct criteria (binding), ties (permutation-consistency only)
     crit = rng.sample(range(-60, 61), n)
     cond = _bools(rng, n)
@@ -558,7 +576,7 @@ def malformed_for(rng: random.Random, tok, count, members):
 
 
 def generate(rng: random.Random, tier: str):
-    npop = 2500 if tier == "quick" else 60000
+    npop = 10000 if tier == "quick" else 60000
     out = []
     for k in range(npop):
         tok, count, members = random_population(rng, small=(k % 5 == 0))
@@ -659,5 +677,10 @@ PROP = Prop(
         "values are exact integers / booleans (float32/float64/int32/int64 arrays of small integers); rounding, overflow and NaN propagation are not modelled",
         "claim domain: >= 1 person, group indices < count, array sizes matching; outside it the model still answers (errors included) and is compared",
     ],
+    level_text=("T-full on the model: every aggregate / projection / position / rank / chain clause of the statement is a "
+                "theorem for all population sizes and membership maps (17 theorems, incl. independence from numpy's unstable "
+                "argsort order and the refusal branches); the numpy primitives are modelled and tied by the correspondence; "
+                "tie order of get_rank and the raw ordered_members_map are compared but not binding. F-C10 (bincount without "
+                "minlength) is repaired in the modelled code and sits in the corpus."),
     exhaustive_note="thorough: all membership maps of 1..5 persons into 1..3 groups with 2 roles (10 756 populations x 36 operations)",
 )
